@@ -287,7 +287,8 @@ class Bits:
 
     def _repr(self, classname: str, length: int, pos: int):
         pos_string = f', pos={pos}' if pos else ''
-        if hasattr(self, '_filename') and self._filename:
+        if hasattr(self, '_filename') and self._filename and self._bitstore.immutable:
+            # Only an object that still holds the file's own bits can be recreated from the file.
             return f"{classname}(filename={self._filename!r}, length={length}{pos_string})"
         else:
             s = self.__str__()
